@@ -218,13 +218,23 @@ def run(ctx):
             evaluate(label, fn, colargs, c, canonical="list_nd", shared=opts)
         # barycenter averaging: the initial average must not be written to
         cvals = [float(rng.randint(-2, 2)) for _ in range(rng.randint(2, 5))]
-        dargs = {k: (v, np.array(cvals)) for k, v in cols.items() if k in ("list_nd", "list_strided", "matrix", "matrix_F",
-                                                                           "matrix_strided", "container")}
+        dargs = {k: (v, np.array(cvals)) for k, v in cols.items() if k in ("list_nd", "list_strided", "list_array", "matrix",
+                                                                           "matrix_F", "matrix_strided", "container")}
         evaluate("dtw_barycenter.dba", lambda s, c0: dtw_barycenter.dba(s, c0), dargs, False, canonical="list_nd")
         evaluate("dtw_barycenter.dba(use_c)", lambda s, c0: dtw_barycenter.dba(s, c0, use_c=True), dargs, True,
                  canonical="list_nd")
         evaluate("dtw_barycenter.dba_loop(use_c)", lambda s, c0: dtw_barycenter.dba_loop(s, c0, max_it=3, use_c=True), dargs,
                  True, canonical="list_nd")
+        # the loop without a convergence test, with and without an initial average (then the first series is the
+        # start value and must not be written to either)
+        for eng_c in (False, True):
+            evaluate("dtw_barycenter.dba_loop(thr=None, use_c=%s)" % eng_c,
+                     lambda s, c0: dtw_barycenter.dba_loop(s, c0, max_it=2, thr=None, use_c=eng_c), dargs, eng_c,
+                     canonical="list_nd")
+            nargs = {k: (v[0],) for k, v in dargs.items()}
+            evaluate("dtw_barycenter.dba_loop(c=None, thr=None, use_c=%s)" % eng_c,
+                     lambda s: dtw_barycenter.dba_loop(s, None, max_it=2, thr=None, use_c=eng_c), nargs, eng_c,
+                     canonical="list_nd")
         # subsequence alignment / search with a shared options dictionary
         sq = {k: (r1[k], r2[k]) for k in ("nd", "strided", "reversed", "column", "array", "list")}
         evaluate("subsequence_alignment", lambda a, b: subsequence_alignment(a, b).matching_function(), sq, False)
@@ -238,6 +248,45 @@ def run(ctx):
                                                            "matrix_F")}
         evaluate("Hierarchical.fit", lambda s: Hierarchical(dtw.distance_matrix, hopts, show_progress=False).fit(s), hargs,
                  False, canonical="list_nd", shared=hopts)
+        # k-means through fit_fast with a shared options dictionary
+        if it % 4 == 0 and len(series) >= 3:
+            from dtaidistance.clustering.kmeans import KMeans
+            import contextlib, io
+            kopts = dict(kwn)
+            kbefore = dict(kopts)
+            try:
+                with contextlib.redirect_stdout(io.StringIO()):
+                    np.random.seed(it); import random as _r; _r.seed(it)
+                    KMeans(k=2, max_it=2, max_dba_it=2, dists_options=kopts, show_progress=False).fit_fast(cols["list_nd"])
+            except BaseException as ex:
+                if isinstance(ex, (KeyboardInterrupt, SystemExit)):
+                    raise
+                res.violations.append({"clause": "KMeans.fit_fast raised", "got": type(ex).__name__ + ":" + str(ex)[:100]})
+            res.evaluations += 1
+            res.hit("kmeans_fit_fast_shared_options")
+            if kopts != kbefore:
+                res.violations.append({"clause": "a shared settings dictionary is not modified", "routine": "KMeans.fit_fast",
+                                       "before": repr(kbefore), "after": repr(kopts)})
+        # local concurrences: reading the matrix between two searches does not change the second search
+        from dtaidistance.subsequence.localconcurrences import LocalConcurrences
+        sv = np.array([float(rng.randint(0, 2)) for _ in range(rng.randint(6, 12))])
+
+        def lc_run(peek):
+            lc = LocalConcurrences(sv, None, gamma=1.0, tau=0.5, delta=-1.0, delta_factor=0.5, penalty=0.0)
+            lc.align()
+            first = [[tuple(map(int, q)) for q in m.path] for m in lc.kbest_matches(k=1, minlen=1)]
+            if peek:
+                lc.wp_slice(positivize=True)
+                lc.wp_slice()
+            second = [[tuple(map(int, q)) for q in m.path] for m in lc.kbest_matches(k=2, minlen=1, restart=False)]
+            return first, second
+        res.evaluations += 1
+        res.hit("lc_peek_between_searches")
+        a_, b_ = lc_run(False), lc_run(True)
+        if a_ != b_:
+            res.violations.append({"clause": "interleaving other calls on the same objects does not change a result",
+                                   "routine": "LocalConcurrences.kbest_matches with wp_slice(positivize=True) in between",
+                                   "series": sv.tolist(), "without": a_, "with": b_})
         res.sample({"s1": v1, "s2": v2, "kw": kw, "series": series}, limit=2)
     # ---- contiguity guard vs the Lean view model on random strided views
     ops, views = [], []
